@@ -897,14 +897,16 @@ func (e *Engine) assumeEnsures(st *State, env *SpecEnv, x ast.Expr, results []Va
 					if tr := mkToRing(rt.Args[0].Sort, lt); tr.Op == "app" && tr.Name == "toring" && !occurs(tr, rt.Args[0]) {
 						st.assume(mkEq(lt, rt))
 						st.addSubst(tr, rt.Args[0])
+						e.orientDigits(st, lt, rt)
 						return
 					}
 				}
 				// `big-endian value of a buffer written by the callee == t`: where that value occurs as a whole
 				// (e.g. as the argument of a byte-string abstraction) it is t
-				if lt.Sort == SInt && lt.Op == "poly" && freshBytesPoly(lt) && !occurs(lt, rt) {
+				if lt.Sort == SInt && lt.Op == "poly" && freshBytesPoly(lt) && !occurs(lt, rt) && e.curContract != nil && e.curContract.Options["digits"] {
 					st.assume(mkEq(lt, rt))
 					st.addSubst(lt, rt)
+					e.orientDigits(st, lt, rt)
 					return
 				}
 				st.assume(mkEq(lt, rt))
@@ -1583,4 +1585,22 @@ func foreignResult(st *State, iv *IfaceVal, method string, t types.Type, advance
 	}
 	lo, hi := intRange(t)
 	return mkIntVarR(fmt.Sprintf("foreign$%s.%s#%d", iv.obj, method, n), lo, hi)
+}
+
+// orientDigits: the big-endian value of n bytes of a callee-created buffer equals x.  The base-256
+// representation of a number is unique, so byte i of the buffer is digit i of x: select(A, o+i) is rewritten
+// to select(be(n, x), i) from here on (uniqueness of positional notation: elementary, listed as trusted).
+func (e *Engine) orientDigits(st *State, lt, x *Term) {
+	if e.curContract == nil || !e.curContract.Options["digits"] {
+		return // opt-in (contract clause `option digits`): it changes the normal form of byte values
+	}
+	arr, off, n, ok := beDigits(lt)
+	if !ok || n < 2 {
+		return
+	}
+	e.usedIntrinsic("base-256 digits")
+	be := mkBe(n, x)
+	for i := int64(0); i < n; i++ {
+		st.addSubst(mkSelect(arr, mkInt64(off+i)), mkSelect(be, mkInt64(i)))
+	}
 }
